@@ -617,6 +617,8 @@ class C20(Spec):
             # the stream does not start at offset 0 of its file (a container
             # prefix): writer and readers are handed a file positioned past it
             case["prefix"] = rng.choice([1, 2, 3, 5])
+        if rng.random() < 0.5:
+            case["ghost"] = True  # a second writer / reader instance used in alternation
         return case
 
     def shrink(self, case):
@@ -634,6 +636,8 @@ class C20(Spec):
             yield dict(case, reread=False)
         if case.get("prefix"):
             yield {k: v for k, v in case.items() if k != "prefix"}
+        if case.get("ghost"):
+            yield {k: v for k, v in case.items() if k != "ghost"}
 
     def execute(self, case):  # noqa: C901
         import random as _random
@@ -645,6 +649,12 @@ class C20(Spec):
         f = SimFile(junk)
         f.seek(npre)
         w = BitstreamWriter(f)
+        # a second, independent writer (and later reader) on its own file, used
+        # in alternation with the one under test: instances must not share state
+        ghost = bool(case.get("ghost"))
+        gfile = SimFile()
+        gw = BitstreamWriter(gfile) if ghost else None
+        gvals = []
         bits = [(x >> i) & 1 for x in junk for i in range(7, -1, -1)]  # model: the file's bits
         pos = 8 * npre  # model cursor (bit index)
         layout = []  # what was written: (kind, op, start, nbits, expected value, inner info)
@@ -669,6 +679,13 @@ class C20(Spec):
         for step, o in enumerate(case["ops"]):
             if seeked:
                 break  # after an arbitrary writer seek only the final bytes are compared
+            if ghost:
+                gv = (step * 5 + 3) & 7
+                try:
+                    gw.write_nbits(3, gv)
+                except Exception as e:  # noqa: BLE001
+                    return viol(exc_sig("C20/second-writer-raised", e), "a second, independent writer raised:\n%s" % short_tb(e))
+                gvals.append(gv)
             k = o["op"]
             shape.append(k[0] if k != "bb" else "B")
             stats["w:" + k] += 1
@@ -814,6 +831,13 @@ class C20(Spec):
         events.append(("written", data.hex()))
         if bytes(packed) != data:
             return viol("C20/written-bytes", "file holds %s, model %s" % (data.hex(), bytes(packed).hex()))
+        if ghost:
+            gw.flush()
+            gbits = "".join(format(v, "03b") for v in gvals)
+            want_g = bytes(int((gbits + "0" * (-len(gbits) % 8))[i : i + 8], 2) for i in range(0, len(gbits) + (-len(gbits) % 8), 8))
+            if gfile.getvalue() != want_g:
+                return viol("C20/second-writer-bytes", "a second writer used in alternation wrote %s to its own file, expected %s (instances share state?)" % (gfile.getvalue().hex(), want_g.hex()))
+            stats["second-writer-checked"] += 1
         if seeked:
             stats["writer-seeks"] += 1
             return Outcome(OK, events, stats=stats, nontrivial=len(case["ops"]) >= 2, key="".join(shape)[:24] + "|wseek", ticks=step)
@@ -830,6 +854,9 @@ class C20(Spec):
             rf.seek(npre)
             df.seek(npre)
             r = BitstreamReader(rf)
+            gdata = bytes((73 * i + 41) & 0xFF for i in range(96))
+            gr = BitstreamReader(SimFile(gdata)) if ghost else None
+            gpos = 0
             st = State()
             _dec.init_io(st, df)
             p = 8 * npre
@@ -942,6 +969,16 @@ class C20(Spec):
                     if got_fill != fill:
                         return viol("C20/block-padding", "unused bounded-block bits read %r, written %r" % (got_fill, fill))
                     p = q + unused
+                if ghost and gpos + 5 <= 8 * len(gdata):
+                    try:
+                        got_g = gr.read_nbits(5)
+                    except Exception as e:  # noqa: BLE001
+                        return viol(exc_sig("C20/second-reader-raised", e), "a second, independent reader raised:\n%s" % short_tb(e))
+                    want_gv = (int.from_bytes(gdata, "big") >> (8 * len(gdata) - gpos - 5)) & 31
+                    if got_g != want_gv:
+                        return viol("C20/second-reader-value", "a second reader on its own file, used in alternation, read %d where its file holds %d (instances share state?)" % (got_g, want_gv))
+                    gpos += 5
+                    stats["second-reader-reads"] += 1
                 want_tell = pos_tuple(p)
                 if r.tell() != want_tell:
                     return viol("C20/reader-tell", "%s: BitstreamReader.tell() %r, model %r after %r" % (label, r.tell(), want_tell, o))
